@@ -480,7 +480,7 @@ func buildRoutesAllowlist(opts *options.Options) ([]allowedRoute, error) {
 		var (
 			method string
 			path   string
-			negate = strings.Contains(methodPath, "!=")
+			negate bool
 		)
 
 		parts := regexp.MustCompile("!?=").Split(methodPath, 2)
@@ -490,6 +490,9 @@ func buildRoutesAllowlist(opts *options.Options) ([]allowedRoute, error) {
 		} else {
 			method = strings.ToUpper(parts[0])
 			path = parts[1]
+			// the rule is negated only if the separator itself is "!=",
+			// a "!=" inside the path regex does not negate it
+			negate = strings.HasPrefix(methodPath[len(parts[0]):], "!=")
 		}
 
 		compiledRegex, err := regexp.Compile(path)
